@@ -14,6 +14,7 @@ LEVEL_NOTE = 'Trusted: Python `in` semantics for value matching; inf cells and N
 RULE = ('random tables (0-20 rows, cells None/int/float/NaN/str, unique id column) x conditions (1-3 keyword filters of value / list / None / NaN / '
         'compiled regex, dict filter, or one callable over named columns incl. predicates returning truthy non-bool values); '
         'non-trivial = the condition selects a non-empty proper subset, or mixes None and NaN conditions; distinct = canonical hash of the case')
+RULE_ALSO = '; added by the coverage audit and round 8: columns called self / other / cls; predicates naming columns through keyword-only parameters or functools.partial'
 ASSUMPTIONS = ['+-inf cells: the documented is_nan counts inf as NaN, so under a NaN condition only the partition (exc = complement of inc, order, columns) is claimed for tables holding inf; under every other condition inf is an ordinary value', 'NaN is not placed inside lists of admissible values',
                'a callable is not combined with keyword filters (outside the quantifier: exc is then not the complement of inc)',
                'value matching follows Python `in` (identity or ==), so 1 matches 1.0']
